@@ -243,13 +243,14 @@ def make_specs(run):
         for k, (kind, sh) in enumerate(plan):
             specs.append(L.gen_spec(rng, kind, shape=sh, tz=zones[k % len(zones)], noise=L.NOISE_KINDS[k % 3]))
     else:
-        n_daily = int(os.environ.get("C15_THOROUGH_DAILY", "1"))
+        n_daily = int(os.environ.get("C15_THOROUGH_DAILY", "2"))
+        specs += L.sentinel_specs(rng, "daily")
         specs += L.sentinel_specs(rng, "daily")
         specs += L.grid_specs(rng, "daily", per_cell=n_daily)
-        for _ in range(40):
+        for _ in range(80):
             specs.append(L.gen_spec(rng, "daily"))
         for sh in L.SHAPES:
-            for _ in range(8):
+            for _ in range(10):
                 specs.append(L.gen_spec(rng, "billing", shape=sh))
     return specs
 
